@@ -50,7 +50,9 @@ Names == <<
     [s |-> "ext", go |-> "Ext"], [s |-> "ints", go |-> "Ints"], [s |-> "subs", go |-> "Subs"], [s |-> "b", go |-> "B"],
     [s |-> "NONE", go |-> "None"], [s |-> "RED", go |-> "Red"], [s |-> "dark_blue", go |-> "DarkBlue"],
     [s |-> "UNDEFINED", go |-> "Undefined"], [s |-> "FIRST", go |-> "First"], [s |-> "second_value", go |-> "SecondValue"],
-    [s |-> "BIG", go |-> "Big"] >>
+    [s |-> "BIG", go |-> "Big"],
+    [s |-> "unary", go |-> "Unary"], [s |-> "nothing", go |-> "Nothing"], [s |-> "one", go |-> "One"], [s |-> "chan", go |-> "Chan"],
+    [s |-> "recv", go |-> "Recv"], [s |-> "send", go |-> "Send"], [s |-> "msg", go |-> "Msg"], [s |-> "hello", go |-> "Hello"] >>
 FieldNamePool == 14       \* the first 14 entries are used for generated field names
 GoName(s) == LET S == {i \in DOMAIN Names : Names[i].s = s} IN IF S = {} THEN "?" ELSE Names[CHOOSE i \in S : TRUE].go
 
@@ -271,11 +273,11 @@ ValOf(t, v, world, pkg, fl) ==
 
 Unset == [k |-> "unset"]
 \* the meaning of message `name` of the compiled package: accessors and, per run, values and bytes
-MsgSem(world, name, runs) ==
+RunsFor(n) == << [i \in 1..n |-> 1], [i \in 1..n |-> 2], [i \in 1..n |-> i % 3], [i \in 1..n |-> 0] >>
+
+\* the meaning of a message with the given fields declared in file fl of the compiled package
+MsgSemF(world, name, fl, fs, runs) ==
     LET pkg == world[1]
-        fl == FileOfDef(pkg, name)
-        d == FindDef(PkgDefs(pkg), name)
-        fs == d.fields
         vals(r) == Force([i \in DOMAIN fs |-> IF runs[r][i] = 0 THEN Unset ELSE ValOf(fs[i].type, runs[r][i], world, pkg, fl)])
     IN [msg |-> name, file |-> fl.name,
         fields |-> [i \in DOMAIN fs |-> [name |-> fs[i].name, go |-> GoName(fs[i].name), tag |-> LitNum(fs[i].lit), type |-> fs[i].type]],
@@ -287,6 +289,23 @@ MsgSem(world, name, runs) ==
                 eraws |-> [i \in DOMAIN fs |-> IF vs[i].k = "list" THEN [e \in DOMAIN vs[i].elems |-> Encode(vs[i].elems[e])] ELSE <<>>],
                 msgval |-> Canon(VMsg(written)),
                 bytes |-> Encode(VMsg(written))]]]
+MsgSem(world, name, runs) ==
+    LET pkg == world[1] IN MsgSemF(world, name, FileOfDef(pkg, name), FindDef(PkgDefs(pkg), name).fields, runs)
+
+\* a method whose arguments (results) are a field list gets a generated message <Service><Method>Request (Response)
+\* with exactly those fields: the same meaning as a declared message
+MethodMsgs(world) ==
+    LET pkg == world[1]
+        svcs == SelectSeq(PkgDefs(pkg), LAMBDA d : d.t = "service")
+        one(sv, mt) ==
+            (IF mt.input.k = "fields" /\ Len(mt.input.fields) > 0
+             THEN <<[name |-> sv.name \o GoName(mt.name) \o "Request", fields |-> mt.input.fields, file |-> FileOfDef(pkg, sv.name)]>> ELSE <<>>)
+            \o (IF ~mt.oneway /\ mt.output.k = "fields" /\ Len(mt.output.fields) > 0
+                THEN <<[name |-> sv.name \o GoName(mt.name) \o "Response", fields |-> mt.output.fields, file |-> FileOfDef(pkg, sv.name)]>> ELSE <<>>)
+    IN Cat([i \in DOMAIN svcs |-> Cat([j \in DOMAIN svcs[i].methods |-> one(svcs[i], svcs[i].methods[j])])])
+MethodSems(world) ==
+    LET ms == MethodMsgs(world)
+    IN [i \in DOMAIN ms |-> MsgSemF(world, ms[i].name, ms[i].file, ms[i].fields, RunsFor(Len(ms[i].fields)))]
 StructSem(world, name) ==
     LET pkg == world[1]
         fl == FileOfDef(pkg, name)
@@ -296,7 +315,6 @@ StructSem(world, name) ==
 EnumSem(d) == [name |-> d.name, values |-> [i \in DOMAIN d.values |-> [name |-> d.values[i].name, go |-> d.name \o "_" \o GoName(d.values[i].name),
                                                                      num |-> LitNum(d.values[i].lit)]]]
 
-RunsFor(n) == << [i \in 1..n |-> 1], [i \in 1..n |-> 2], [i \in 1..n |-> i % 3], [i \in 1..n |-> 0] >>
 
 \* ------------------------------------------------------------------ mutation operators (family mutant)
 BaseFields == <<F("a", B("int32"), "1"), F("type", Ref("Kind"), "2"), F("sub", Ref("Sub"), "3"), F("ext", Imp("pkgb", "Ext"), "4"),
@@ -459,7 +477,7 @@ Files(world) == [p \in DOMAIN world |-> [id |-> world[p].id,
                                                                ast |-> world[p].files[i].ast]]]]
 SemOf(world) ==
     LET n == Len(FindDef(PkgDefs(world[1]), "Rec").fields) IN
-    [msgs |-> <<MsgSem(world, "Rec", RunsFor(n)), MsgSem(world, "Sub", <<<<1, 1>>, <<2, 0>>>>)>>,
+    [msgs |-> <<MsgSem(world, "Rec", RunsFor(n)), MsgSem(world, "Sub", <<<<1, 1>>, <<2, 0>>>>)>> \o MethodSems(world),
      structs |-> <<StructSem(world, "P"), StructSem(world, "Q")>>,
      enums |-> <<EnumSem(KindDef)>>]
 NoSem == [msgs |-> <<>>, structs |-> <<>>, enums |-> <<>>]
